@@ -296,6 +296,10 @@ theorem one_handle_per_endpoint (ops : List Op) (h1 h2 : Nat) (r1 r2 : Relay)
   have := Amqp.Handles.nodup_map_inj (fun p : Nat × Relay => p.2.lid) _ hnd (h1, r1) (h2, r2) m1 m2 he
   exact congrArg Prod.fst this
 
+/-- generated obligation: the table operations the model mirrors are present in session/mod.rs, in the
+    model's order (a `get` where the model removes, a `take` dropped, a lookup after the insert … flips this) -/
+theorem source_routing_shape : sourceShape = true := by decide
+
 /-! ## non-vacuity -/
 
 /-- two links; the first is detached locally and its output handle 0 goes to a third link while the
